@@ -196,8 +196,10 @@ def _run_variant(job, work, vname, inc, res, seed):
         if a != b:
             la, lb = a.split('\n'), b.split('\n')
             d = next(((x, y) for x, y in zip(la, lb) if x != y), (a[-300:], b[-300:]))
-            raise Inconclusive('translator validation FAILED for %s: native vs translated differ:\n  native:     %s\n  translated: %s' % (job.name, d[0][:400], d[1][:400]))
-        res['validated_streams'] += job.seeds
+            # either the translator is wrong or the code under test has undefined behaviour that the two compilers resolve
+            # differently; CBMC still runs: a counterexample that replays natively is reported, otherwise the job is inconclusive
+            res['validation_failed'] = 'translator validation FAILED for %s: native vs translated differ:\n  native:     %s\n  translated: %s' % (job.name, d[0][:400], d[1][:400])
+        else: res['validated_streams'] += job.seeds
         lines = [l for l in a.split('\n') if l.startswith('seed')]
         res['native_random_fail_lines'] = res.get('native_random_fail_lines', 0) + sum(1 for l in lines if 'FAIL:' in l)
         if lines and len(res['trace_samples']) < 2: res['trace_samples'].append(lines[0][:300])
@@ -205,7 +207,8 @@ def _run_variant(job, work, vname, inc, res, seed):
     cmd = ['cbmc'] + cfiles + [os.path.join(RT, 'cbmc_rt.c')] + extra + ['-I', RT, '--function', 'harness',
            '--unwind', str(job.unwind), '--unwinding-assertions', '--drop-unused-functions', '--slice-formula', '--object-bits', '12',
            '-DVERIF_PROP_LO=%d' % job.prop[0], '-DVERIF_PROP_HI=%d' % job.prop[1]]
-    for k, v in job.unwindset.items(): cmd += ['--unwindset', '%s:%d' % (k, v)]
+    uws = dict({'nondet_u32.0': 6}); uws.update(job.unwindset)
+    for k, v in uws.items(): cmd += ['--unwindset', '%s:%d' % (k, v)]
     if job.ub: cmd += ['-DVERIF_UB', '--pointer-overflow-check', '--no-malloc-may-fail']
     else: cmd += ['--no-standard-checks']
     cmd += job.cbmc_extra or ['--sat-solver', 'cadical']
